@@ -382,6 +382,72 @@ def r02_8(ctx):
         ctx.functions.add(q)
 
 
+def r02_input_untouched(ctx):
+    """Decoding reads its input and leaves it alone: whatever the call does (return a message, refuse), the caller's list,
+    bytearray or deque holds the same items afterwards - a decoder that pops the status byte off the caller's buffer returns the
+    right message once, and the buffer (the encoding the caller still holds) decodes to something else the next time."""
+    fn_cd, item_fn, item_dom = codec.data_byte_domain(ctx)
+    cls = ctx.p.cls(MSG, 'Message')
+    fb = ctx.fn(ctx.p.func(MSG, 'Message.from_bytes'))
+    dec = ctx.fn(ctx.p.func(codec.DEC_MOD, 'decode_message'))
+    ai = _interp(ctx, item_dom)
+    w = ctx.where(dec)
+    n = 0
+    n1, v1 = smf_sym('n1', 127), smf_sym('v1', 127)
+    for kind in ('list', 'bytearray', 'deque'):
+        for shape, label in (([0x93, n1, v1], 'a note_on'), ([0xf8], 'a clock'), ([0xf0, n1, v1, 0xf7], 'a sysex'), ([0xe2, n1, v1], 'a pitchwheel'),
+                             ([0x93, n1], 'a truncated note_on'), ([0x93, 200, v1], 'a note_on with a data byte of 200'), ([0xf0, n1, v1], 'an unterminated sysex')):
+            n += 1
+            bufs = []
+
+            def thunk():
+                buf = AList(list(shape), kind)
+                bufs.append(buf)
+                ai.check_data_calls = []
+                return ai.call_function(fb, [ClassRef(cls), buf], {'time': Opaque('t')})
+            outs = ai.explore(thunk)
+            same = bool(bufs) and all(len(b.items) == len(shape) and all(x is y or (type(x) is type(y) and not hasattr(x, 'name') and x == y)
+                                                                        for x, y in zip(b.items, shape)) for b in bufs)
+            ctx.require(same, 'R02.10', f'from_bytes({kind} holding {label}).input', w,
+                        f'after the call the caller\'s {kind} holds {[b.items for b in bufs if b.items != shape][:1]}, it held {shape}: decoding consumes or '
+                        f'edits the sequence it was given (outcomes: {outs})', construct=f'{dec.qname}::input-modified')
+    ctx.floor('R02.10', n, 21)
+    for q in ai.inlined:
+        ctx.functions.add(q)
+
+
+def r02_fresh_encoding(ctx):
+    """What bytes() returns is the caller's: a new list every time, for every type - never a list that is also kept somewhere
+    (a table of ready-made encodings, a cache): the caller may extend or clear what it got, and the next message of that type
+    must still encode to its own bytes."""
+    doms = codec.attr_domains(ctx)
+    syms = codec.attr_syms(doms)
+    enc = ctx.fn(ctx.p.func(codec.ENC_MOD, 'encode_message'))
+    ai = codec.make_interp(ctx)
+    w = ctx.where(enc)
+    n = 0
+    for row in codec.specs(ctx):
+        t = row['type']
+        if any(nm != 'data' and nm not in syms for nm in row['value_names']):
+            continue
+        n += 1
+
+        def thunk():
+            a = ai.call_function(enc, [codec.msg_dict(t, row['value_names'], syms)], {})
+            b = ai.call_function(enc, [codec.msg_dict(t, row['value_names'], syms)], {})
+            # (judged here: the values an outcome carries are snapshots)
+            return a is b or (isinstance(a, AList) and isinstance(b, AList) and a.items is b.items)
+        outs = ai.explore(thunk)
+        ok = bool(outs) and all(o.kind == 'return' for o in outs)
+        shared = any(o.kind == 'return' and o.value is not False for o in outs)
+        ctx.require(ok and not shared, 'R02.11', f'encode({t}) twice', w,
+                    f'two encodings of {t} messages are {"one and the same list object" if shared else outs}: what one caller does to its list '
+                    'shows in every later encoding', construct=f'{enc.qname}::shared-result')
+    ctx.floor('R02.11', n, 18)
+    for q in ai.inlined:
+        ctx.functions.add(q)
+
+
 def r02_encoder(ctx):
     """bytes() of the message from_bytes returns reproduces the input exactly: the encoder layout is the inverse of the decoder
     layout, bit for bit (encoder bodies shared with C01 R01.2; the decoder side is R01.3)."""
@@ -390,4 +456,4 @@ def r02_encoder(ctx):
     ctx.borrow(c01.r01_3, 'R02.9')
 
 
-RULES = [('R02.9', r02_encoder), ('R02.1', r02_1), ('R02.4', r02_4), ('R02.5', r02_5), ('R02.7', r02_7), ('R02.8', r02_8)]
+RULES = [('R02.11', r02_fresh_encoding), ('R02.10', r02_input_untouched), ('R02.9', r02_encoder), ('R02.1', r02_1), ('R02.4', r02_4), ('R02.5', r02_5), ('R02.7', r02_7), ('R02.8', r02_8)]
